@@ -1,3 +1,5 @@
 import TpmVerif.Base.Trace
 import TpmVerif.Model.Clock
 import TpmVerif.Check.C16
+import TpmVerif.Model.Tpm12Frame
+import TpmVerif.Check.C18
